@@ -78,7 +78,7 @@ def main(argv):
         if plan.NEEDS_FIXTURES.get(rep['module']) and not os.environ.get('VERIF_FIXDIR'):
             from vlib import fixtures
             tmp = tempfile.mkdtemp(prefix='verif_replay_')
-            fixtures.build(tmp)
+            fixtures.build(tmp, plan.NEEDS_FIXTURES[rep['module']])
             os.environ['VERIF_FIXDIR'] = tmp
         rc = run(rep)
         print('REPRODUCED' if rc == 1 else 'NOT-REPRODUCED')
